@@ -48,6 +48,26 @@ def generate(rng, tier):
                "axes": axes, "corners": rng.random() < 0.4, "pre": rng.choice([None, None, None, "slice", "rebin"]),
                "form": rng.choice(["values", "values", "high"])}
 
+    # targeted: extra coords on some axes only, an integer axis that carries none asked for through the extra coords
+    # (both forms); and two tables of the same physical type with a physical-type string as the request
+    for k in range(40 if tier == "quick" else 2000):
+        nd = rng.choice([2, 3, 3, 4])
+        shape = rng.sample([2, 3, 4, 5], nd)
+        with_ec = rng.sample(range(nd), rng.randint(1, nd - 1))
+        ecs = [{"axis": a, "kind": rng.choice(["quantity", "time"])} for a in with_ec]
+        free = [a for a in range(nd) if a not in with_ec]
+        a = rng.choice(free)
+        yield {"shape": shape, "fam": rng.choice(FAMS), "wseed": rng.randrange(10**6), "ecs": ecs, "which": "extra_coords",
+               "axes": [a if k % 2 else a - nd], "corners": k % 3 == 0, "pre": None, "form": ["values", "high"][k % 2]}
+    for k in range(30 if tier == "quick" else 1500):
+        nd = rng.choice([2, 3])
+        shape = rng.sample([2, 3, 4, 5], nd)
+        ax = rng.sample(range(nd), 2)
+        ecs = [{"axis": ax[0], "kind": "time"}, {"axis": ax[k % 2], "kind": "time"}]
+        yield {"shape": shape, "fam": rng.choice(FAMS), "wseed": rng.randrange(10**6), "ecs": ecs,
+               "which": ["extra_coords", "combined_wcs"][k % 2], "axes": "string", "corners": False, "pre": None,
+               "form": ["values", "high"][(k // 2) % 2]}
+
 
 def build(case):
     from ndcube import NDCube
